@@ -39,6 +39,11 @@ chk("C10", "model_checking",
     "Keeper-level driving (no ante handler, no fees); state identity ignores auth account numbers; trusts go-ethereum's interpreter and the bank keeper.",
     "explicit-state BFS over real branch states with reference model, sharded on the first operation", "DESIGN.md §5 C10", "seqx-branch")
 
+chk("C17", "model_checking",
+    "Explicit-state BFS over CacheContext branches from 8 genesis worlds (cpc flags × whitelist): every operation of a 100+-op alphabet (UpdateParams, DeployErc20Contract, DeployStakingContract through ValidateBasic + the real message server; the upgrade-handler keeper op SetCustomPrecompiledContractMeta) to depth 4 (thorough 7); in every distinct state the registry invariants (unique addresses, one ERC-20 per denom with positive supply, denom index = inverse of metadata, type never changes, version never decreases, only whitelisted deployers / governance) and the exposure oracle (view call to registered, neighbouring, next-dynamic and foreign addresses through the real NewEVM in deliver/check/recheck/EthCall modes answers iff registered and enabled) are evaluated.",
+    "Message-server level (no ante handler); trusts go-ethereum's interpreter dispatch.",
+    "explicit-state BFS over real branch states, invariant + exposure oracle", "DESIGN.md §5 C17", "seqx-branch")
+
 NOT_YET = "check not built yet in this round (planned, see DESIGN.md §9)"
 
 def main():
